@@ -46,13 +46,14 @@ def Statement (c : Cfg) : Prop :=
     -- accepted only if based on the current version, +1 each (every further transition)
     (∀ e s', step c s e = some s' → StepOK s s')
 
-theorem reach_good {v0 : Nat} {s : State} (h : Reach fixed v0 s) : Good v0 s := by
+theorem reach_good {v0 : Nat} {p : Bool} {s : State} (h : Reach (fixed p) v0 s) : Good v0 s := by
   induction h with
   | init => exact good_init v0
   | step _ hs ih => exact good_step ih hs
 
 /-- every enabled transition of the repaired system from a state satisfying the invariant is as demanded -/
-theorem stepOK_of_good {v0 : Nat} {s s' : State} {e : Ev} (g : Good v0 s) (h : step fixed s e = some s') :
+theorem stepOK_of_good {v0 : Nat} {p : Bool} {s s' : State} {e : Ev} (g : Good v0 s)
+    (h : step (fixed p) s e = some s') :
     StepOK s s' := by
   cases e with
   | start id base =>
@@ -69,8 +70,13 @@ theorem stepOK_of_good {v0 : Nat} {s s' : State} {e : Ev} (g : Good v0 s) (h : s
             cases hs : s.awaiting with
             | nil => exact absurd hs hnil
             | cons a l => simp
-          simp only [hne, if_true, Option.some.injEq] at h
-          subst h; exact Or.inl ⟨rfl, rfl, rfl⟩
+          simp only [hne, if_true] at h
+          by_cases hp : (p && decide (base ≠ s.version)) = true
+          · simp only [hp, if_true, Option.some.injEq] at h
+            subst h; exact Or.inl ⟨rfl, rfl, rfl⟩
+          · have hp' : (p && decide (base ≠ s.version)) = false := by simpa using hp
+            simp only [hp', Bool.false_eq_true, if_false, Option.some.injEq] at h
+            subst h; exact Or.inl ⟨rfl, rfl, rfl⟩
   | reply id ok =>
     simp only [step, fixed] at h
     split at h
@@ -108,7 +114,7 @@ theorem stepOK_of_good {v0 : Nat} {s s' : State} {e : Ev} (g : Good v0 s) (h : s
 
 /-- **C31 for the system with the per-engine lock and a version that survives re-registration**: all interleavings,
 any number of requests, disconnects and re-registrations at every point. -/
-theorem locked_holds : Statement fixed := by
+theorem locked_holds (precheck : Bool) : Statement (fixed precheck) := by
   intro v0 s hr
   have g := reach_good hr
   exact ⟨g.nodup, g.count, fun e s' h => stepOK_of_good g h⟩
@@ -167,17 +173,18 @@ example : run fixed (init 0) [.start 0 0, .reply 0 true, .disconnect, .register,
            results := [(0, .accepted 1), (1, .rejected)] } := by decide
 
 /-- Nobody waits for a free lock (the hand-over on release leaves no waiter behind). -/
-theorem no_waiter_on_free_lock {v0 : Nat} {s : State} (h : Reach fixed v0 s) (hf : s.awaiting = []) :
+theorem no_waiter_on_free_lock {v0 : Nat} {p : Bool} {s : State} (h : Reach (fixed p) v0 s) (hf : s.awaiting = []) :
     s.waiters = [] := (reach_good h).free hf
 
 /-- At most one engine round trip is pending at any time; it carries the current version as its base unless the
 connection dropped under it (then it can only fail). -/
-theorem one_round_trip_at_a_time {v0 : Nat} {s : State} (h : Reach fixed v0 s) :
+theorem one_round_trip_at_a_time {v0 : Nat} {p : Bool} {s : State} (h : Reach (fixed p) v0 s) :
     s.awaiting.length ≤ 1 ∧ ∀ r ∈ s.awaiting, r.base = s.version ∨ r.id ∈ s.doomed :=
   ⟨(reach_good h).one, (reach_good h).cur⟩
 
 /-- The version never falls: a version number handed out once is never current again. -/
-theorem version_monotone {s s' : State} {e : Ev} {v0 : Nat} (hr : Reach fixed v0 s) (h : step fixed s e = some s') :
+theorem version_monotone {s s' : State} {e : Ev} {v0 : Nat} {p : Bool} (hr : Reach (fixed p) v0 s)
+    (h : step (fixed p) s e = some s') :
     s.version ≤ s'.version := by
   rcases stepOK_of_good (reach_good hr) h with ⟨_, h2, _⟩ | ⟨_, _, _, h2, _⟩ | ⟨_, h2, _⟩ <;> omega
 
@@ -186,12 +193,13 @@ the engine round trip to the commit. (Fails to compile if the lock is removed.) 
 theorem code_holds_lock : OPM.Gen.SaveLock.lockAcrossAwait = true := by decide
 
 /-- **C31 for the code as translated** (the version behaviour on re-registration is measured by the harness). -/
-theorem c31 : Statement { locked := OPM.Gen.SaveLock.lockAcrossAwait, resetOnRegister := false } := by
-  rw [code_holds_lock]; exact locked_holds
+theorem c31 (precheck : Bool) :
+    Statement { locked := OPM.Gen.SaveLock.lockAcrossAwait, resetOnRegister := false, precheck := precheck } := by
+  rw [code_holds_lock]; exact locked_holds precheck
 
 /-- Non-vacuity: a reachable state of the repaired system with an accepted, a rejected and a failed save, a
 reconnect under a pending save, and a later accepted save. -/
-example : ∃ s, Reach fixed 3 s ∧ s.version = 6 ∧ s.accepted = [⟨0, 3⟩, ⟨3, 5⟩] ∧
+example : ∃ s, Reach (fixed) 3 s ∧ s.version = 6 ∧ s.accepted = [⟨0, 3⟩, ⟨3, 5⟩] ∧
     s.results = [(1, .failed), (0, .accepted 4), (2, .rejected), (4, .failed), (3, .accepted 6)] := by
   have hw : run fixed (init 3)
       [.start 1 3, .start 0 3, .start 2 3, .reply 1 false, .reply 0 true, .start 4 4, .disconnect, .register,
